@@ -5,6 +5,7 @@ import (
 	"fmt"
 	"os"
 	"path/filepath"
+	"regexp"
 	"sort"
 	"strings"
 	"unicode/utf8"
@@ -23,6 +24,8 @@ type c20State struct {
 var c20Texts = []string{
 	"", "a", "c", "a, c", "b, d, e", "hello world", "é🌍ü", "line1\nline2\n", "key: value # yaml", "- item", "\"quoted\" 'single'", "\x00\x01\x02", "\xff\xfe invalid utf8",
 	strings.Repeat("x", 255), strings.Repeat("long answer ", 341), "  padded  ", "---", "%s %d", "<b>&amp;</b>", "a,b,c,d,e,f,g,h,i,j,k,l,m,n,o,p,q,r,s,t,u,v,w,x,y,z",
+	// texts that YAML reads as something else than a string when written plainly
+	"42", "0.25", "true", "null", "~", "1e3", "0x1F", "yes", "2024-01-01", "-7", ".5", "no", "012",
 }
 
 const c20VerifyBlock = 400 // question cells per case
@@ -461,6 +464,7 @@ func c20Seal(c *core.Ctx, st *c20State, text string, ki int) {
 		for _, t := range []string{text, " " + text, text + " ", text + "\n", "\t" + text + "\n\n", "\u00a0" + text + "\u3000", "\n" + text} {
 			c20ModelSeal(c, kp, other, t)
 		}
+		c20FileRoundTrip(c, kp, text)
 	}
 }
 
@@ -715,5 +719,87 @@ func c20VerifyCell(c *core.Ctx, n int, outs []int, mark string, t int, style int
 	}
 	if c.Res.Counters["questions_verified"]%4001 == 1 {
 		c.Sample(map[string]any{"cell": cell, "accepted": got, "markdown": firstN(md, 300)})
+	}
+}
+
+var c20PlainScalarRe = regexp.MustCompile(`^[A-Za-z0-9.+~-][A-Za-z0-9.+ -]*$`)
+
+// c20FileRoundTrip: what `levy seal` does to a question file - read, Seal, WriteFormatted - and reading
+// the written file back with the private key gives back the answer, whether the front matter wrote it
+// quoted or as a plain scalar (42, 0.25, true, ... are the text the learner has to type).
+func c20FileRoundTrip(c *core.Ctx, kp learn.KeyPair, text string) {
+	styles := []string{}
+	if q := yamlQuote(text); q != "" && text != "" {
+		styles = append(styles, q)
+	}
+	if c20PlainScalarRe.MatchString(text) && strings.TrimSpace(text) == text && len(text) < 100 {
+		styles = append(styles, text)
+	}
+	for si, ans := range styles {
+		dir := filepath.Join(c.Tmp, "c20file", "course", "unit", "exercise")
+		_ = os.RemoveAll(filepath.Join(c.Tmp, "c20file"))
+		if err := os.MkdirAll(dir, 0o755); err != nil {
+			c.Inconclusive("mkdir: " + err.Error())
+			return
+		}
+		fname := filepath.Join(dir, "q.md")
+		content := "---\ntype: question\ndifficulty: easy # comment\nanswer-type: text\nanswer: " + ans + "\n---\n\n" + c20TextQuestionMD
+		_ = os.WriteFile(fname, []byte(content), 0o644)
+		desc := fmt.Sprintf("file round trip of answer %s (style %d)", firstN(ans, 60), si)
+		func() {
+			defer func() {
+				if p := recover(); p != nil {
+					c.Violation("seal:file-crash", fmt.Sprintf("%s: %v", desc, p), content, nil)
+				}
+			}()
+			m, err := learn.NewQuestionModel(fname)
+			if err != nil {
+				c.Cover("model-not-built", firstN(err.Error(), 40))
+				return
+			}
+			before := m.Frontmatter.Answer
+			if before == "" {
+				return
+			}
+			c.Event("file_round_trips", 1)
+			c.Distinct("file|" + ans)
+			if err := m.Seal(kp.Public); err != nil {
+				c.Violation("seal:file-seal-error", desc+": Seal failed: "+err.Error(), content, nil)
+				return
+			}
+			if err := m.WriteFormatted(); err != nil {
+				c.Violation("seal:file-write-error", desc+": WriteFormatted failed: "+err.Error(), content, nil)
+				return
+			}
+			written, _ := os.ReadFile(fname)
+			if strings.Contains(string(written), "answer: "+ans+"\n") && !strings.Contains(string(written), "sealed-answer") {
+				c.Violation("seal:file-not-sealed", desc+": the written file still holds the plain answer", string(written), nil)
+				return
+			}
+			m2, err := learn.NewQuestionModel(fname, learn.WithPrivateKey(kp.Private))
+			if err != nil {
+				c.Violation("seal:file-round-trip", fmt.Sprintf("%s: the sealed file cannot be read back: %v", desc, err), string(written), nil)
+				return
+			}
+			if !m2.IsSealed() {
+				c.Violation("seal:file-not-sealed", desc+": the file read back is not sealed", string(written), nil)
+				return
+			}
+			if err := m2.Unseal(); err != nil || m2.Frontmatter.Answer != before {
+				c.Violation("seal:file-round-trip", fmt.Sprintf("%s: after seal, write, read, unseal the answer is %q (%v), it was %q", desc, firstN(m2.Frontmatter.Answer, 80), err, firstN(before, 80)), string(written), nil)
+				return
+			}
+			// and unsealed + written again the file holds the answer in a form that reads back the same
+			if err := m2.WriteFormatted(); err == nil {
+				if m3, err := learn.NewQuestionModel(fname); err != nil || m3.Frontmatter.Answer != before {
+					got := ""
+					if m3 != nil {
+						got = m3.Frontmatter.Answer
+					}
+					w2, _ := os.ReadFile(fname)
+					c.Violation("seal:file-unsealed-write", fmt.Sprintf("%s: unsealed and written, the file reads back as %q (%v), it was %q", desc, firstN(got, 80), err, firstN(before, 80)), string(w2), nil)
+				}
+			}
+		}()
 	}
 }
